@@ -185,6 +185,19 @@ theorem RSpin.nowrap_of_short_programs {progs : Nat → List Op} {s : RSpin.Sys}
     (hlen : (progs t).length < W) : RSpin.NoWrap s t :=
   RSpin.nowrap_of_short h t hlen
 
+/-- The counter of the model wraps at 2^32; the declaration table (regenerated
+from the source on every run) shows that `lock_count_` is an unsigned integer
+at least that wide, so the model's counter is faithful to the code for every
+nesting depth below 2^32, and for threads that make fewer than 2^32 calls
+neither counter wraps: the count stays below the declared range. -/
+theorem RSpin.nowrap {progs : Nat → List Op} {s : RSpin.Sys} (h : RSpin.Reach progs s) (t : Nat)
+    (hlen : (progs t).length < W) :
+    W ≤ 2 ^ bitsOf Gen.SpinlockDecls.members .recursiveSpinlock .count ∧
+    RSpin.NoWrap s t ∧
+    (0 < (s.thr t).hold → s.sh.count < 2 ^ bitsOf Gen.SpinlockDecls.members .recursiveSpinlock .count) := by
+  have hw : W ≤ 2 ^ bitsOf Gen.SpinlockDecls.members .recursiveSpinlock .count := by decide
+  exact ⟨hw, RSpin.nowrap_of_short h t hlen, fun _ => Nat.lt_of_lt_of_le (RSpin.good_of_reach h).free.2 hw⟩
+
 /-- No data race on the lock's own fields: in no reachable state are two
 different threads about to access the same non-atomic field with at least one
 of them writing.  Which fields are atomic is read off the source
@@ -225,6 +238,23 @@ theorem Ident.unique_resolvable (h : List Ident.Cmd) (hl : h.length < W64) :
 example : (Ident.run [.new 3, .new 5, .del 3, .new 3]).live 3 = some 2 ∧ (Ident.run [.new 3, .new 5, .del 3, .new 3]).objs 0 = none := by
   decide
 
+/-- What the sequential models of the mixins assume about the declarations, read
+off the source: the registry of Identifiable (`next_id_`, `objects_`) and its
+`mutex_`, and the default slot of DefaultSettable, are `static` and not
+`thread_local` (one per process, shared by all threads); the object's own
+`id_` is per object; `next_id_` is a 64-bit unsigned integer; and the
+constructor, the destructor and get_object() each take the lock_guard on
+`mutex_` before they touch the registry (nothing else touches it), so that
+concurrent executions are sequential histories of the modelled commands. -/
+theorem Mixins.process_wide_and_guarded :
+    (∀ m ∈ [Member.nextId, Member.objects, Member.mutex],
+      storageOf Gen.SpinlockDecls.members .identifiable m = some (true, false)) ∧
+    storageOf Gen.SpinlockDecls.members .defaultSettable .defaultObj = some (true, false) ∧
+    storageOf Gen.SpinlockDecls.members .identifiable .objId = some (false, false) ∧
+    bitsOf Gen.SpinlockDecls.members .identifiable .nextId = 64 ∧
+    Gen.SpinlockDecls.identGuarded = [(.ctor, true), (.dtor, true), (.getObject, true)] := by
+  decide
+
 /-- DefaultSettable: after any history the default slot is empty or points to a
 live object (destroying the current default clears it). -/
 theorem Default.never_dangles (h : List Default.Cmd) (a : Nat) (hs : (Default.run h).slot = some a) :
@@ -233,5 +263,22 @@ theorem Default.never_dangles (h : List Default.Cmd) (a : Nat) (hs : (Default.ru
 
 example : (Default.run [.new 1, .set 1, .del 1]).slot = none ∧ (Default.run [.new 1, .new 2, .set 1, .del 2]).slot = some 1 := by
   decide
+
+/-- Cross-thread lifetime of the default slot (one slot shared by all threads:
+the commands of the history may come from any thread): once the object that is
+the current default has been destroyed, get_default() throws. -/
+theorem Default.destroyed_default_throws (h : List Default.Cmd) (a : Nat) (hs : (Default.run h).slot = some a) :
+    (Default.run (h ++ [.del a])).slot = none ∧
+    (Default.exec (Default.run (h ++ [.del a])) .get).2 = "err" := by
+  have hl := Default.never_dangles h a hs
+  have hrun : Default.run (h ++ [.del a]) = (Default.exec (Default.run h) (.del a)).1 := by
+    simp [Default.run, List.foldl_append]
+  have hslot : (Default.exec (Default.run h) (.del a)).1.slot = none := by
+    simp [Default.exec, hl, hs]
+  rw [hrun]
+  generalize (Default.exec (Default.run h) (.del a)).1 = s' at hslot
+  exact ⟨hslot, by simp only [Default.exec, hslot]⟩
+
+example : (Default.run [.new 2, .set 2]).slot = some 2 := by decide
 
 end Primitiv.C19
